@@ -201,6 +201,7 @@ func runC12(r *Run) {
 func runC13(r *Run) {
 	t := r.T
 	variantB := t.Chance(35, "variant-b")
+	variantC := !variantB && t.Chance(25, "variant-c") // capacity partly free: already-cancelled / past-deadline calls must still be refused
 	o := scenOpts{
 		kinds: []string{"queue", "queue", "deadline", "deadline", "blocking", "lifo-ctor", "fifo-ctor", "pool"}, strategies: []string{"simple", "precise"},
 		maxClients: 4, arrivals: []time.Duration{0, ms, 2 * ms}, holds: []time.Duration{0, ms},
@@ -208,7 +209,12 @@ func runC13(r *Run) {
 		deadlines: []time.Duration{0, ms, 2 * ms, 5 * time.Second, -ms},
 		cancelPct: 50, cancelTimes: []time.Duration{0, ms, 2 * ms, 3 * ms},
 		backlogs: []int{10}, limits: []int{1, 2}, relTimes: []time.Duration{ms, 2 * ms, 3 * ms, 2*ms - 1, 2*ms + 1},
-		preHeldAll: true, noReleases: !variantB,
+		preHeldAll: !variantC, noReleases: !variantB,
+	}
+	if variantC {
+		o.kinds = []string{"blocking", "deadline", "deadline", "pool"}
+		o.cancelPct = 70
+		o.cancelTimes = []time.Duration{0, 0, ms}
 	}
 	sc := drawScen(r, o)
 	if sc == nil {
@@ -223,7 +229,52 @@ func runC13(r *Run) {
 	cfg := sc.cfg
 	isQueue := cfg.IsQueueKind()
 	isBlocking := cfg.Kind == "blocking" || ((cfg.Kind == "pool" || cfg.Kind == "fixedpool") && cfg.Ordering == "random")
-	s.OnEnd = func() {
+	if variantC {
+		s.OnEnd = func() {
+			for i, cl := range sc.clients {
+				if cl.acq == nil || !cl.returned {
+					continue
+				}
+				arrive := cl.acq.CallT
+				mustRefuse := ""
+				if (isBlocking || cfg.Kind == "deadline") && cl.canceled.Load() && (cl.spec.preCancel || cl.cancelStep < cl.acq.Call) {
+					mustRefuse = "its context was already cancelled"
+				}
+				if cfg.Kind == "deadline" && arrive > int64(cfg.Deadline) {
+					mustRefuse = "the deadline had passed"
+				}
+				if mustRefuse == "" {
+					continue
+				}
+				r.Probe("precancelled_or_late_call_with_free_capacity")
+				r.Nontrivial = true
+				if cl.granted {
+					s.Fail("granted-after-bound", cfg.Key(), "caller %d arrived at %s when %s, yet it was granted a token (capacity was free) [%s]", i, fmtDur(arrive), mustRefuse, cfg)
+					return
+				}
+				if cl.acq.RetT != arrive {
+					s.Fail("blocked-past-bound", cfg.Key(), "caller %d arrived at %s when %s but was refused only at %s [%s]", i, fmtDur(arrive), mustRefuse, fmtDur(cl.acq.RetT), cfg)
+					return
+				}
+			}
+			if sc.midOp() {
+				return
+			}
+			if busy, ok := sc.st.Busy(); ok && int64(busy) != sc.st.Out.Load() {
+				s.Fail("busy-mismatch", cfg.Key(), "strategy busy count %d but %d grants are outstanding: a refused call consumed capacity", busy, sc.st.Out.Load())
+			}
+		}
+	} else {
+		s.OnEnd = c13End(r, sc, variantB, isQueue, isBlocking)
+	}
+	s.Run()
+	r.VirtNs = s.Now()
+	sc.commonProbes()
+}
+
+func c13End(r *Run, sc *scen, variantB, isQueue, isBlocking bool) func() {
+	s, cfg := sc.s, sc.cfg
+	return func() {
 		end := s.Now()
 		for i, cl := range sc.clients {
 			if cl.acq == nil {
@@ -303,9 +354,6 @@ func runC13(r *Run) {
 			}
 		}
 	}
-	s.Run()
-	r.VirtNs = s.Now()
-	sc.commonProbes()
 }
 
 func itoa(i int) string {
